@@ -102,7 +102,8 @@ def run_case(case):
             if length < np.linalg.norm(B - A) * (1 - 1e-9):
                 violations.append({"clause": "length-below-chord", "coords": coords(theta=th, kind="angle"), "detail": f"{length} < {np.linalg.norm(B - A)}"})
     # 2. origin (flatness 1, equidistant origin), angles in (0, pi)
-    for th in [t for t in THETAS if t < math.pi - 1e-2]:
+    # (up to 179.4 degrees: the origin of a nearly half circle is nearly the middle of the chord)
+    for th in [t for t in THETAS if t < math.pi - 1e-2] + [3.04, 3.06, 3.1, 3.13]:
         for sign in (1, -1):
             B = c + rot(A - c, n, sign * th)
             want_mid = c + rot(A - c, n, sign * th / 2)
